@@ -100,6 +100,7 @@ def register2(w):
         c.props.update(["C05", "C06", "C01"] if "http" not in key[0] else ["C05", "C06"])
 
     register_ea(w)
+    register_blocks(w)
 
 
 def register_ea(w):
@@ -122,3 +123,18 @@ def register_ea(w):
                      "must_hit": ["after~self.setea("], "cfgeval:GopherEntry/eaexts": "dict[str,str]"},
                note="a block is filled only from the file <selector><extension> of the configured extension map - no other file is consulted - and the file is closed again",
                props=sorted(set(old.props) | {"C15", "C08", "C01"}))
+
+
+def register_blocks(w):
+    P = "pygopherd/protocols/"
+    GPLUS = ["GopherPlusProtocol", "SecureGopherPlusProtocol"]
+    E = {"entry": "obj:GopherEntry"}
+    w.contract(P + "wap.py::WAPProtocol.adjustmimetype", selfclass=["WAPProtocol"], params={"mimetype": "opt[str]"}, modifies=["self.needsconversion"], raises={}, returns="str",
+               ensures=["result == ('text/vnd.wap.wml' if (mimetype is None or mimetype == 'text/plain' or mimetype == 'application/gopher-menu') else mimetype)",
+                        "self.needsconversion == (1 if (mimetype is None or mimetype == 'text/plain') else 0)"],
+               props=["C04", "C06", "C03"],
+               note="WAP: plain text is converted to WML (and only plain text: needsconversion), menus are WML, everything else keeps its type")
+    w.contract(P + "gopherp.py::GopherPlusProtocol.getsupportedblocknames", selfclass=GPLUS, params=E, modifies=[], raises={}, returns="list[str]",
+               ensures=["len(result) >= 3", "result[0] == '+INFO'", "result[1] == '+ADMIN'", "result[2] == '+VIEWS'", "len(result) == 3 + len(list(entry.ea.keys()))"],
+               opts={"dict_keys_symbolic": True}, props=["C15"],
+               note="item information = +INFO, +ADMIN, +VIEWS, then one block per extended attribute of the entry")
